@@ -168,3 +168,415 @@ Example roundtrip_nonvacuous : exists coll stored,
                        with Some sg => [sg] | None => [] end)) (seq 0 5) = true /\
   extract_all (ex_get stored) 3 coll = Ok ex_samples.
 Proof. vm_compute. do 2 eexists. repeat split; reflexivity. Qed.
+
+(* ==================================================================================================================
+   ================================================  composition  ====================================================
+   The layers proved separately - LZ diff (C09, LZ.v), segment / pack compression (C12, Tuple.v, SegCompress.v),
+   the group store and get_segment addressing (C02, GroupStore.v, SegReader.v), the contig pipeline above - are
+   COMPOSED here into theorems about   Pipeline.create ; GroupStore.run ; finalize   followed by
+   SegReader.get_segment ; Pipeline.extract_all   with the real LZ and compression models plugged in.
+   Proofs: proofs/Compose_codecs.v, proofs/Compose_proofs.v.  Nothing above this line was changed.
+   The only assumption left is [zstd_ok] on the pair (zc, zd) (zstd itself is not modelled, as in C12).
+
+   What is NOT threaded through (stated precisely):
+   - the catalogue codec C03: the collection [coll] built by the writer is handed to the reader directly; C03's
+     batches_roundtrip (load_all (store_all c) = samples c, props/C03.v) says that serialising and reloading it gives the
+     same descriptors, but Collection.v's catalogue type has not been connected to Pipeline.collection here;
+   - the archive container C13/C14: the reader sees the parts as [view_of (finalize st)] (per group: the part lists
+     of the two streams), not the byte file;
+   - FASTA parsing / formatting (C16) and the heuristics that choose decisions and groups (oracles [dec], [grp]). *)
+From Ragc Require Import SegReader GroupStore SegCompress SegCompress_proofs Compose_codecs Compose_proofs.
+From Ragc Require LZ.
+
+(* ---- the definitions the composed statements use, pinned here (each is the definition itself: reflexivity) *)
+Example zstd_ok_def : forall zc zd,
+  zstd_ok zc zd = ((forall level x, zd (zc level x) = Some x) /\ (forall level x, x <> [] -> zc level x <> [])).
+Proof. reflexivity. Qed.
+Example concrete_codecs_def : forall zc zd mml level r t x c m,
+  c_lz_enc mml r t = match LZ.encode mml r t with Ok e => e | _ => [] end /\
+  c_lz_dec mml r c = LZ.decode_full mml r c /\
+  c_compress_ref zc x = match compress_reference_segment zc x with Ok cm => cm | _ => ([], 0) end /\
+  c_compress_pack zc level x = compress_segment_configured zc x level /\
+  c_dwm zd c m = decompress_segment_with_marker zd c m.
+Proof. intros. repeat split; reflexivity. Qed.
+Example concrete_store_def : forall zc zd mml level ops st ar d,
+  c_run zc mml level ops = run (c_lz_enc mml) (c_compress_ref zc) (c_compress_pack zc level) ops /\
+  c_view zc level st = view_of (finalize (c_compress_pack zc level) st) /\
+  c_get_segment zd mml ar d = get_segment (c_dwm zd) (c_lz_dec mml) ar d /\
+  (forall pd, store_get zc zd mml level st pd =
+     c_get_segment zd mml (c_view zc level st)
+       {| SegReader.d_group := Pipeline.d_group pd; SegReader.d_id := Pipeline.d_id pd;
+          SegReader.d_rc := Pipeline.d_rc pd; SegReader.d_len := Pipeline.d_len pd |}).
+Proof. intros. repeat split; reflexivity. Qed.
+Example domains_def : forall mml r t x,
+  c_ref_dom x = (lenN x < 2147483648) /\
+  c_lz_dom mml r t = (4 <= mml /\ t <> [] /\ Forall (fun c => c <= 30) t /\ lenN r + lenN t + mml < 2147483648).
+Proof. intros. split; reflexivity. Qed.
+Example c_ops_ok_def : forall mml ops,
+  c_ops_ok mml ops =
+  (forall g s, In s (segs_of ops g) ->
+     Forall (fun b => b <= 30) (s_data s) /\
+     (g < 16 -> lenN (s_data s) < two32) /\
+     (16 <= g -> 4 <= mml /\ s_data s <> [] /\
+                 forall s', In s' (segs_of ops g) -> lenN (s_data s') + lenN (s_data s) + mml < 2147483648)).
+Proof. reflexivity. Qed.
+Example pieces_in_dom_def : forall mml (stored : list (Pipeline.seg_desc * list N)),
+  pieces_in_dom mml stored =
+  (forall d b, In (d, b) stored ->
+     Forall (fun c => c <= 30) b /\
+     (Pipeline.d_group d < 16 -> lenN b < two32) /\
+     (16 <= Pipeline.d_group d -> 4 <= mml /\ b <> [] /\
+        forall d' b', In (d', b') stored -> Pipeline.d_group d' = Pipeline.d_group d ->
+                      lenN b' + lenN b + mml < 2147483648)).
+Proof. reflexivity. Qed.
+Example store_fed_by_def : forall (stored : list (Pipeline.seg_desc * list N)) ops,
+  store_fed_by stored ops =
+  (forall g s, In s (segs_of ops g) -> exists d, In (d, s_data s) stored /\ Pipeline.d_group d = g).
+Proof. reflexivity. Qed.
+Example addresses_from_store_def : forall (stored : list (Pipeline.seg_desc * list N)) st,
+  addresses_from_store stored st =
+  (forall d b, In (d, b) stored ->
+     exists s, In (s, Pipeline.d_id d) (regs_of st (Pipeline.d_group d)) /\ s_data s = b /\ s_rc s = Pipeline.d_rc d).
+Proof. reflexivity. Qed.
+Example emitted_def : forall k spl segsize dec grp i s c data rest,
+  all_emit k spl segsize dec grp i ((s, c, data) :: rest) =
+  (match contig_pieces (N.to_nat k) (split_at_splitters_with_size data spl k segsize) (dec i) 0 0 with
+   | Ok ps => map (fun pc => (grp i (p_part pc),
+                              {| s_sample := s; s_contig := c; s_part := N.of_nat (p_part pc);
+                                 s_data := p_data pc; s_rc := p_rc pc |})) ps
+   | _ => []
+   end) ++ all_emit k spl segsize dec grp (S i) rest
+  /\ all_emit k spl segsize dec grp i [] = [].
+Proof. intros. split; reflexivity. Qed.
+Example ops_carry_def : forall (emitted : list (N * seg_in)) ops,
+  ops_carry emitted ops =
+  (forall g, Permutation (segs_of ops g) (map snd (filter (fun x => fst x =? g) emitted))).
+Proof. reflexivity. Qed.
+(* the address of piece (contig i, seg_part_no part): the oracle's group, and the in_group_id found in the store's
+   registrations of that group for exactly this segment (names, part number, bytes, flag) *)
+Example store_addr_def : forall k spl segsize dec grp pushes st i part,
+  store_addr k spl segsize dec grp pushes st i part =
+  (grp i part,
+   match nth_error pushes i with
+   | Some (s, c, data) =>
+       match contig_pieces (N.to_nat k) (split_at_splitters_with_size data spl k segsize) (dec i) 0 0 with
+       | Ok ps =>
+           match find (fun pc => Nat.eqb (p_part pc) part) ps with
+           | Some pc =>
+               match find (fun x => seg_eqb (fst x) (seg_of_piece s c pc)) (regs_of st (grp i part)) with
+               | Some x => snd x
+               | None => 0
+               end
+           | None => 0
+           end
+       | _ => 0
+       end
+   | None => 0
+   end).
+Proof. reflexivity. Qed.
+Example inputs_in_dom_def : forall mml (pushes : list push),
+  inputs_in_dom mml pushes =
+  (forall s c data, In (s, c, data) pushes -> Forall (fun x => x <= 30) data /\ 2 * lenN data + mml < 2147483648).
+Proof. reflexivity. Qed.
+Example lz_contigs_nonempty_def : forall (pushes : list push) (grp : nat -> nat -> N),
+  lz_contigs_nonempty pushes grp =
+  (forall i s c data part, nth_error pushes i = Some (s, c, data) -> 16 <= grp i part -> data <> []).
+Proof. reflexivity. Qed.
+
+(* ---- 1. codecs_instance: the codec hypotheses of the group store (props/C02.v [codecs_ok], written out) hold for
+   the real LZ model (C09) and the real segment / pack compression model (C12), given zstd_ok only *)
+Theorem codecs_instance : forall zc zd mml level, zstd_ok zc zd ->
+  (forall x, c_ref_dom x ->
+     c_dwm zd (fst (c_compress_ref zc x)) (snd (c_compress_ref zc x)) = Ok x /\ fst (c_compress_ref zc x) <> []) /\
+  (forall x, x <> [] -> c_dwm zd (c_compress_pack zc level x) Consts_groupstore.W_PACK_MARKER_STEP = Ok x) /\
+  (forall r t, c_lz_dom mml r t ->
+     (c_lz_enc mml r t = [] -> t = r) /\
+     (c_lz_enc mml r t <> [] -> c_lz_dec mml r (c_lz_enc mml r t) = Ok t) /\
+     ~ In Consts_groupstore.CONTIG_SEPARATOR (c_lz_enc mml r t)).
+Proof. exact Compose_codecs.codecs_instance_proof. Qed.
+Print Assumptions codecs_instance.
+(* on the domains the total instance functions ARE the real (outcome-valued) functions *)
+Theorem codecs_instance_total : forall zc mml r t x,
+  (c_lz_dom mml r t -> LZ.encode mml r t = Ok (c_lz_enc mml r t)) /\
+  (c_ref_dom x -> compress_reference_segment zc x = Ok (c_compress_ref zc x)).
+Proof. intros. split; [apply Compose_codecs.c_lz_enc_ok|apply Compose_codecs.c_compress_ref_ok]. Qed.
+Print Assumptions codecs_instance_total.
+
+(* C02's store_then_get without codec hypotheses *)
+Theorem store_then_get_concrete :
+  forall zc zd mml level, zstd_ok zc zd ->
+  forall ops st g s id,
+  c_ops_ok mml ops ->
+  c_run zc mml level ops = Ok st ->
+  In (s, id) (regs_of st g) ->
+  c_get_segment zd mml (c_view zc level st) (desc_of g s id) = Ok (s_data s) /\
+  SegReader.d_len (desc_of g s id) = lenN (s_data s).
+Proof. exact Compose_codecs.store_then_get_concrete_proof. Qed.
+Print Assumptions store_then_get_concrete.
+
+(* ---- 2. stored_ok_from_groupstore: the interface hypothesis of create_extract_roundtrip holds when [get] is
+   get_segment on the archive view of a store that was fed the registered pieces and whose registrations are the
+   registered addresses *)
+Theorem stored_ok_from_groupstore :
+  forall zc zd, zstd_ok zc zd ->
+  forall mml level (stored : list (Pipeline.seg_desc * list N)) ops st,
+  (forall d b, In (d, b) stored -> Pipeline.d_len d = wrap32 (lenN b)) ->
+  pieces_in_dom mml stored ->
+  store_fed_by stored ops ->
+  c_run zc mml level ops = Ok st ->
+  addresses_from_store stored st ->
+  stored_ok (store_get zc zd mml level st) stored.
+Proof. exact Compose_proofs.stored_ok_from_groupstore_proof. Qed.
+Print Assumptions stored_ok_from_groupstore.
+
+(* ---- 3. end to end, relational form: ANY addressing [addr], ANY store schedule [ops], tied by
+   store_fed_by / addresses_from_store *)
+Theorem end_to_end_roundtrip :
+  forall zc zd, zstd_ok zc zd ->
+  forall ecn k spl segsize dec addr sched mml level
+         (samples : list (name * list (name * list N))) coll stored ops st,
+  1 <= k <= 32 ->
+  NoDup (map fst samples) /\ Forall (fun s => fst s <> [] /\ snd s <> []) samples ->
+  (forall i s c data j sg, nth_error (pushes_of samples) i = Some (s, c, data) ->
+     nth_error (split_at_splitters_with_size data spl k segsize) j = Some sg ->
+     decision_okb (N.to_nat k) sg (dec i j) = true) ->
+  (forall l, Permutation l (sched l)) ->
+  create ecn k spl segsize dec addr sched (pushes_of samples) = Ok (coll, stored) ->
+  pieces_in_dom mml stored ->
+  store_fed_by stored ops ->
+  c_run zc mml level ops = Ok st ->
+  addresses_from_store stored st ->
+  Forall (fun s => NoDup (map fst (snd s))) samples /\
+  extract_all (store_get zc zd mml level st) k coll = Ok samples.
+Proof. exact Compose_proofs.end_to_end_roundtrip_proof. Qed.
+Print Assumptions end_to_end_roundtrip.
+
+(* the two relational hypotheses are what the code does: with the store's own registrations as addresses
+   ([store_addr]) they hold for every group assignment and every schedule carrying the emitted pieces *)
+Theorem store_addr_consistent :
+  forall k spl segsize dec grp lz_enc compress_ref compress_pack pushes ops st regs,
+  1 <= k ->
+  (forall i s c data j sg, nth_error pushes i = Some (s, c, data) ->
+     nth_error (split_at_splitters_with_size data spl k segsize) j = Some sg ->
+     decision_okb (N.to_nat k) sg (dec i j) = true) ->
+  ops_carry (all_emit k spl segsize dec grp 0 pushes) ops ->
+  run lz_enc compress_ref compress_pack ops = Ok st ->
+  all_regs k spl segsize dec (store_addr k spl segsize dec grp pushes st) 0 pushes = Ok regs ->
+  store_fed_by (map (fun r => (r_desc r, r_data r)) regs) ops /\
+  addresses_from_store (map (fun r => (r_desc r, r_data r)) regs) st.
+Proof. exact Compose_proofs.store_addr_consistent_proof. Qed.
+Print Assumptions store_addr_consistent.
+
+(* every split of the emitted pieces into rounds (one op per group and round) is such a schedule *)
+Theorem ops_rounds_carry : forall groups (rounds : list (list (N * seg_in))), NoDup groups ->
+  (forall x, In x (concat rounds) -> In (fst x) groups) ->
+  ops_carry (concat rounds) (flat_map (fun r => map (fun g => (g, map snd (filter (fun x => fst x =? g) r))) groups) rounds).
+Proof. exact Compose_proofs.ops_rounds_carry. Qed.
+Print Assumptions ops_rounds_carry.
+
+(* the codec domains follow from hypotheses on the INPUT: symbols 0..30, 2 * contig length + mml < 2^31, and no
+   piece of an empty contig in an LZ group (pieces are contiguous parts of their contig, possibly reverse-complemented;
+   uses C10's chain shape and segments_nonempty) *)
+Theorem pieces_in_dom_from_inputs :
+  forall k spl segsize dec addr pushes regs mml,
+  1 <= k <= 32 -> 4 <= mml ->
+  (forall i s c data j sg, nth_error pushes i = Some (s, c, data) ->
+     nth_error (split_at_splitters_with_size data spl k segsize) j = Some sg ->
+     decision_okb (N.to_nat k) sg (dec i j) = true) ->
+  inputs_in_dom mml pushes ->
+  lz_contigs_nonempty pushes (fun i part => fst (addr i part)) ->
+  all_regs k spl segsize dec addr 0 pushes = Ok regs ->
+  pieces_in_dom mml (map (fun r => (r_desc r, r_data r)) regs).
+Proof. exact Compose_proofs.pieces_in_dom_from_inputs_proof. Qed.
+Print Assumptions pieces_in_dom_from_inputs.
+
+(* ---- 3'. END TO END.  For every sample set (sample names distinct and non-empty, no sample without contigs) over
+   symbol codes 0..30 with 2 * |contig| + mml < 2^31, 1 <= k <= 32, min match length mml >= 4, every compression
+   level, every splitter set, every decision oracle meeting decisions_ok, every assignment [grp] of pieces to groups
+   (pieces of empty contigs not in LZ groups), every schedule [ops] of the group store carrying the emitted pieces
+   (any rounds, any order), every arrival order [sched] of the registrations, under the zstd hypotheses only:
+   if the store does not trap (run = Ok; see C02 run_no_trap: below 2^32 - 2 segments per group) and create
+   succeeds with the store's addresses, then contig names are distinct within each sample and extraction through
+   SegReader.get_segment (LZ.decode_full, SegCompress.decompress_segment_with_marker) on the finalized store and
+   Pipeline's reader returns exactly the input: names, order, bases. *)
+Theorem end_to_end_inputs :
+  forall zc zd, zstd_ok zc zd ->
+  forall ecn k spl segsize dec grp sched mml level
+         (samples : list (name * list (name * list N))) ops st coll stored,
+  1 <= k <= 32 -> 4 <= mml ->
+  NoDup (map fst samples) /\ Forall (fun s => fst s <> [] /\ snd s <> []) samples ->
+  inputs_in_dom mml (pushes_of samples) ->
+  (forall i s c data j sg, nth_error (pushes_of samples) i = Some (s, c, data) ->
+     nth_error (split_at_splitters_with_size data spl k segsize) j = Some sg ->
+     decision_okb (N.to_nat k) sg (dec i j) = true) ->
+  lz_contigs_nonempty (pushes_of samples) grp ->
+  (forall l, Permutation l (sched l)) ->
+  ops_carry (all_emit k spl segsize dec grp 0 (pushes_of samples)) ops ->
+  c_run zc mml level ops = Ok st ->
+  create ecn k spl segsize dec (store_addr k spl segsize dec grp (pushes_of samples) st) sched (pushes_of samples)
+    = Ok (coll, stored) ->
+  Forall (fun s => NoDup (map fst (snd s))) samples /\
+  extract_all (store_get zc zd mml level st) k coll = Ok samples.
+Proof. exact Compose_proofs.end_to_end_inputs_proof. Qed.
+Print Assumptions end_to_end_inputs.
+
+(* the same with the domain hypothesis on the stored pieces instead of the input (weaker: per group, any two
+   pieces + mml below 2^31) *)
+Theorem end_to_end_store_addr :
+  forall zc zd, zstd_ok zc zd ->
+  forall ecn k spl segsize dec grp sched mml level
+         (samples : list (name * list (name * list N))) ops st coll stored,
+  1 <= k <= 32 ->
+  NoDup (map fst samples) /\ Forall (fun s => fst s <> [] /\ snd s <> []) samples ->
+  (forall i s c data j sg, nth_error (pushes_of samples) i = Some (s, c, data) ->
+     nth_error (split_at_splitters_with_size data spl k segsize) j = Some sg ->
+     decision_okb (N.to_nat k) sg (dec i j) = true) ->
+  (forall l, Permutation l (sched l)) ->
+  ops_carry (all_emit k spl segsize dec grp 0 (pushes_of samples)) ops ->
+  c_run zc mml level ops = Ok st ->
+  create ecn k spl segsize dec (store_addr k spl segsize dec grp (pushes_of samples) st) sched (pushes_of samples)
+    = Ok (coll, stored) ->
+  pieces_in_dom mml stored ->
+  Forall (fun s => NoDup (map fst (snd s))) samples /\
+  extract_all (store_get zc zd mml level st) k coll = Ok samples.
+Proof. exact Compose_proofs.end_to_end_store_addr_proof. Qed.
+Print Assumptions end_to_end_store_addr.
+
+(* ---- non-vacuity: the sample set, decisions and reversed arrival order of roundtrip_nonvacuous above; C12's toy
+   zstd; mml = 4, level 17; the short contig goes to raw group 3, the other pieces alternate between LZ groups 16
+   and 17; the store runs in two rounds (3 pieces, then 5).  Every hypothesis of end_to_end_inputs holds, the
+   archive view has a reference part and a delta pack per LZ group, one piece is an id-0 reuse of its reference,
+   and extraction returns the input. *)
+Definition ex_grp (i part : nat) : N := match i with 1%nat => 3 | _ => 16 + N.of_nat part mod 2 end.
+Definition ex_emitted : list (N * seg_in) := all_emit 3 (set_of_list [0]) 60 ex_dec ex_grp 0 (pushes_of ex_samples).
+Definition ex_rounds : list (list (N * seg_in)) := [firstn 3 ex_emitted; skipn 3 ex_emitted].
+Definition ex_store_ops : list op := ops_rounds [3; 16; 17] ex_rounds.
+
+Example zstd_ok_nonvacuous : zstd_ok toy_zc toy_zd.
+Proof. exact SegCompress_proofs.toy_ok. Qed.
+Example ops_carry_nonvacuous : ops_carry ex_emitted ex_store_ops.
+Proof.
+  replace ex_emitted with (concat ex_rounds).
+  - apply Compose_proofs.ops_rounds_carry.
+    + repeat constructor; cbn; intuition discriminate.
+    + assert (H : forallb (fun x : N * seg_in => existsb (N.eqb (fst x)) [3; 16; 17]) (concat ex_rounds) = true)
+        by (vm_compute; reflexivity).
+      intros x Hx. rewrite forallb_forall in H. specialize (H x Hx). apply existsb_exists in H.
+      destruct H as (g & Hg & E). apply N.eqb_eq in E. rewrite E. exact Hg.
+  - unfold ex_rounds. cbn [concat]. rewrite app_nil_r. apply firstn_skipn.
+Qed.
+Example inputs_nonvacuous :
+  inputs_in_dom 4 (pushes_of ex_samples) /\ lz_contigs_nonempty (pushes_of ex_samples) ex_grp /\
+  (NoDup (map fst ex_samples) /\ Forall (fun s : name * list (name * list N) => fst s <> [] /\ snd s <> []) ex_samples).
+Proof.
+  split; [|split; [|split]].
+  - intros s c data Hin. cbn in Hin.
+    destruct Hin as [E|[E|[E|[]]]]; inversion E; subst; (split; [repeat constructor; discriminate|vm_compute; reflexivity]).
+  - intros i s c data part Hn _. destruct i as [|[|[|i]]]; cbn in Hn; try (inversion Hn; subst; discriminate).
+    destruct i; discriminate.
+  - cbn. repeat constructor; cbn; intuition discriminate.
+  - repeat constructor; discriminate.
+Qed.
+Example end_to_end_nonvacuous : exists st coll stored,
+  c_run toy_zc 4 17 ex_store_ops = Ok st /\
+  create (fun c => c) 3 (set_of_list [0]) 60 ex_dec
+         (store_addr 3 (set_of_list [0]) 60 ex_dec ex_grp (pushes_of ex_samples) st) (@rev registration)
+         (pushes_of ex_samples) = Ok (coll, stored) /\
+  map (fun x => (Pipeline.d_group (fst x), Pipeline.d_id (fst x))) stored
+    = [(16, 0); (17, 0); (3, 1); (16, 0); (16, 1); (17, 1); (17, 2); (16, 2)] /\
+  pieces_in_domb 4 stored = true /\
+  gv_ref (c_view toy_zc 17 st 16) = Some [(0, [3; 3; 3; 2])] /\
+  gv_delta (c_view toy_zc 17 st 16) = Some [(0, [68; 68; 68; 65; 67; 66; 255; 65; 68; 68; 68; 255])] /\
+  extract_all (store_get toy_zc toy_zd 4 17 st) 3 coll = Ok ex_samples.
+Proof.
+  eexists. eexists. eexists. split; [vm_compute; reflexivity|]. split; [vm_compute; reflexivity|].
+  vm_compute. repeat split; reflexivity.
+Qed.
+
+(* ---- 4. the catalogue codec C03 threaded through: the catalogue create built is converted to Collection.v's
+   records ([cat_of]: same names, same descriptor fields), stored in batches of any size bs > 0 and reloaded
+   (C03 batches_roundtrip, whose hypotheses are repeated here: its zstd hypothesis "zc never returns an empty
+   frame", name bytes 1..127, descriptor fields in range and stream sizes below 2^32 = batch_ok); extraction from the
+   RELOADED catalogue returns the input.
+   Remaining gap: Pipeline.v's register_sample_contig / add_segment_placed and Collection.v's are two transcriptions
+   of the same Rust functions on different records, related here only through [cat_of] of the finished catalogue;
+   the archive container (C13/C14) is still not threaded (parts are handed over as lists). *)
+Example cat_of_def : forall (c : Pipeline.collection) (ss : list Collection.sample),
+  cat_of c = map (fun s => Collection.mkSample (fst s)
+                    (map (fun ct => Collection.mkContig (fst ct)
+                            (map (fun d => Details.mkSeg (Pipeline.d_group d) (Pipeline.d_id d) (Pipeline.d_rc d) (Pipeline.d_len d))
+                                 (snd ct))) (snd s))) c /\
+  of_cat ss = map (fun s => (Collection.sname s,
+                    map (fun ct => (Collection.cname ct,
+                            map (fun x => mkDesc (Details.sg x) (Details.si x) (Details.src x) (Details.sl x))
+                                (Collection.csegs ct))) (Collection.scontigs s))) ss.
+Proof. intros. split; reflexivity. Qed.
+
+Theorem end_to_end_catalogue :
+  forall zc zd, zstd_ok zc zd -> (forall l x, zc l x <> []) ->
+  forall ecn k spl segsize dec grp sched mml level
+         (samples : list (name * list (name * list N))) ops st coll stored,
+  1 <= k <= 32 -> 4 <= mml ->
+  NoDup (map fst samples) /\ Forall (fun s => fst s <> [] /\ snd s <> []) samples ->
+  inputs_in_dom mml (pushes_of samples) ->
+  (forall i s c data j sg, nth_error (pushes_of samples) i = Some (s, c, data) ->
+     nth_error (split_at_splitters_with_size data spl k segsize) j = Some sg ->
+     decision_okb (N.to_nat k) sg (dec i j) = true) ->
+  lz_contigs_nonempty (pushes_of samples) grp ->
+  (forall l, Permutation l (sched l)) ->
+  ops_carry (all_emit k spl segsize dec grp 0 (pushes_of samples)) ops ->
+  c_run zc mml level ops = Ok st ->
+  create ecn k spl segsize dec (store_addr k spl segsize dec grp (pushes_of samples) st) sched (pushes_of samples)
+    = Ok (coll, stored) ->
+  forall (ss bs : N) (c : Collection.coll),
+  ss + k <= 2147483648 -> 0 < bs ->
+  Collection.segment_size c = ss -> Collection.kmer_length c = k ->
+  Collection.samples c = cat_of coll ->
+  lenN (Collection.samples c) < 4294967296 ->
+  Forall (fun s => Forall (fun b => 1 <= b < 128) (Collection.sname s)) (Collection.samples c) ->
+  Forall (Collection_proofs.batch_ok zc ss k)
+         (Collection_proofs.chunks (length (Collection.samples c)) (N.to_nat bs) (Collection.samples c)) ->
+  exists cw a cr,
+    Collection.store_all zc bs c Collection.arch_empty = Ok (cw, a) /\
+    Collection.load_all zd ss k a = Ok cr /\
+    extract_all (store_get zc zd mml level st) k (of_cat (Collection.samples cr)) = Ok samples.
+Proof. exact Compose_proofs.end_to_end_catalogue_proof. Qed.
+Print Assumptions end_to_end_catalogue.
+
+(* non-vacuity: the instance of end_to_end_nonvacuous; its catalogue in two batches of one sample *)
+Definition ex_e2e : option (store * collection) :=
+  match c_run toy_zc 4 17 ex_store_ops with
+  | Ok st =>
+      match create (fun c => c) 3 (set_of_list [0]) 60 ex_dec
+                   (store_addr 3 (set_of_list [0]) 60 ex_dec ex_grp (pushes_of ex_samples) st) (@rev registration)
+                   (pushes_of ex_samples) with
+      | Ok (coll, _) => Some (st, coll)
+      | _ => None
+      end
+  | _ => None
+  end.
+Example toy_zc_never_empty : forall l x, toy_zc l x <> [].
+Proof.
+  intros l x. unfold toy_zc. destruct (list_eqb N.eqb x toy_s1); [discriminate|].
+  destruct (list_eqb N.eqb x toy_s2); discriminate.
+Qed.
+Example catalogue_nonvacuous :
+  match ex_e2e with
+  | Some (st, coll) =>
+      let c := Collection.mkColl (cat_of coll) [] 60 3 0 0 in
+      forallb (Collection_proofs.batch_okb toy_zc 60 3)
+              (Collection_proofs.chunks (length (Collection.samples c)) 1 (Collection.samples c)) = true /\
+      forallb (fun s => forallb (fun b => (1 <=? b) && (b <? 128)) (Collection.sname s)) (Collection.samples c) = true /\
+      match Collection.store_all toy_zc 1 c Collection.arch_empty with
+      | Ok (_, a) =>
+          length (Collection.a_contigs a) = 2%nat /\
+          match Collection.load_all toy_zd 60 3 a with
+          | Ok cr => Collection.samples cr = cat_of coll /\
+                     extract_all (store_get toy_zc toy_zd 4 17 st) 3 (of_cat (Collection.samples cr)) = Ok ex_samples
+          | _ => False
+          end
+      | _ => False
+      end
+  | None => False
+  end.
+Proof. vm_compute. repeat split; reflexivity. Qed.
